@@ -169,6 +169,8 @@ pub fn c10_configs(thorough: bool) -> Vec<EpCfg> {
                 partial: true,
                 pub_any_status: true,
                 set_interval: vec![Some(3)],
+                // manual responses: the PUBREL may be sent later - or never, when the connection closes first
+                defer_pubrel: !auto,
                 ..Alph::default()
             };
             // limits of the first connection: generous and tiny (smaller than the next CONNECT / CONNACK)
@@ -430,6 +432,21 @@ fn resume<P: Pid>(c: &mut ConnBox<P>, ver: Ver, as_client: bool, rm: Option<u16>
     resume2(c, ver, as_client, rm, None)
 }
 
+/// resume handshake in which the peer announces Receive Maximum `rm` and Maximum Packet Size `mps`
+fn resume3<P: Pid>(c: &mut ConnBox<P>, ver: Ver, as_client: bool, rm: Option<u16>, mps: Option<u32>) -> Trace {
+    let mut t = vec![];
+    let cp = ConnProf { rm: if as_client { None } else { rm }, mps: if as_client { None } else { mps }, ..ConnProf::basic(false) };
+    let ap = AckProf { rm: if as_client { rm } else { None }, mps: if as_client { mps } else { None }, ..AckProf::basic(true) };
+    if as_client {
+        send(c, &mut t, cp.ap(ver));
+        recv(c, &mut t, ap.ap(ver));
+    } else {
+        recv(c, &mut t, cp.ap(ver));
+        send(c, &mut t, ap.ap(ver));
+    }
+    t
+}
+
 /// resume handshake with the peer's Receive Maximum `rm` and the own one `own`
 fn resume2<P: Pid>(c: &mut ConnBox<P>, ver: Ver, as_client: bool, rm: Option<u16>, own: Option<u16>) -> Trace {
     let mut t = vec![];
@@ -550,6 +567,16 @@ pub fn c16(rep: &mut Report) {
             let mut variants: Vec<(Option<u16>, bool, bool, Late)> = if ver == Ver::V5 { vec![(None, false, false, Late::No), (Some(1u16), false, false, Late::No)] } else { vec![(None, false, false, Late::No)] };
             variants.push((None, true, false, Late::No));
             variants.push((None, true, true, Late::No));
+            // v5.0: the peer's Maximum Packet Size on the resuming connection is exactly the size of the largest
+            // exported packet - everything still fits and is retransmitted (encoded as Receive Maximum 65 534)
+            let fit_mps: Option<u32> = {
+                use mqtt_protocol_core::mqtt::packet::GenericPacketTrait;
+                // (an export that only holds PUBRELs would give a limit below the size of the CONNACK itself)
+                x_store.iter().map(|p| p.to_continuous_buffer().len() as u32).max().filter(|m| *m >= 9)
+            };
+            if ver == Ver::V5 && fit_mps.is_some() {
+                variants.push((Some(65_534), false, false, Late::No));
+            }
             // a server only learns from the CONNECT whose session to restore: restore_*() between the CONNECT
             // and the CONNACK. Then: the CONNACK (session present) | the transport is lost before the CONNACK and
             // the next attempt resumes | the peer's acknowledgement of the first restored packet arrives ahead of
@@ -694,6 +721,9 @@ pub fn c16(rep: &mut Report) {
                                 connack(&mut b, &mut tb, true);
                             }
                         }
+                    } else if rm == Some(65_534) {
+                        ta.extend(resume3(&mut a, ver, as_client, None, fit_mps));
+                        tb.extend(resume3(&mut b, ver, as_client, None, fit_mps));
                     } else {
                         ta.extend(resume(&mut a, ver, as_client, rm));
                         tb.extend(resume(&mut b, ver, as_client, rm));
